@@ -16,19 +16,32 @@ def obligations(tier):
             unwind_default=lambda p: 3 * p["F"] + 22,
             timeout=900,
             expect_witnesses=["retr", "top", "file_vanished", "retr_dot_line_and_partial_last_line", "top_cut_short", "top_0_header_only"]),
-        Obl("popup", "popup.c",
-            progs=[Prog("qmail-popup.c", main_as="popup_main")],
-            repo=["commands.c", "str_chr.c", "case_diffs.c", "fmt_uint.c", "fmt_ulong.c", "byte_zero.c", "byte_copy.c", "substdio.c",
+        Obl("popup_commands", "popup_cmd.c",
+            progs=[Prog("qmail-popup.c", main_as="popup_main", cut=["doanddie"])],
+            repo=["commands.c", "str_chr.c", "case_diffs.c", "fmt_uint.c", "fmt_ulong.c", "byte_copy.c",
                   "stralloc_pend.c", "stralloc_opys.c", "stralloc_opyb.c"],
             lib=["ideal_substdio.c", "arena_stralloc.c"],
             defines={"ARENA_CAP": 40, "ARENA_SLOTS": 2},
-            sysrename=["_exit", "close", "pipe", "fork", "execvp", "getpid", "time"],
+            sysrename=["_exit", "getpid", "time"],
             grid=POPUP_QUICK if quick else POPUP_THOROUGH,
-            # strlen: longest constant string is 33 bytes; str_len(pass) on the command buffer stays inside ARENA_CAP
-            unwind={"fmt_ulong": 12, "strlen": 42},
-            unwind_default=lambda p: max(p["L1"] + p.get("L2", 0) + p.get("L3", 0) + 3, 34),
+            unwind=lambda p: {"fmt_ulong": 12, "strlen": 42, "substdio_put": 42,
+                              "commands~    for (;;)": p["L1"] + p.get("L2", 0) + p.get("L3", 0) + 2,
+                              "commands~  for (;;)": (3 if p.get("L3") else 2 if p.get("L2") else 1) + 2},
+            unwind_default=lambda p: max(p["L1"] + p.get("L2", 0) + p.get("L3", 0) + 3, 26),
             timeout=900,
+            cuts=["doanddie(user,userlen,pass) -> checks its arguments against the reference and ends the run; its own effect "
+                  "(user NUL pass NUL timestamp NUL on descriptor 3) is obligation popup_auth"],
             expect_witnesses=popup_witnesses),
+        Obl("popup_auth", "popup_auth.c",
+            progs=[Prog("qmail-popup.c", nomain=True)],
+            repo=["fmt_uint.c", "fmt_ulong.c", "byte_zero.c", "substdio.c"],
+            lib=["ideal_substdio.c"],
+            sysrename=["_exit", "close", "pipe", "fork", "execvp", "getpid", "time"],
+            grid=[{"UL": u, "PL": q} for (u, q) in ([(1, 1), (3, 3), (2, 3)] if quick else [(u, q) for u in range(1, 6) for q in range(1, 6)])],
+            unwind={"fmt_ulong": 12, "strlen": 42, "substdio_put": 42, "byte_zero": 34},
+            unwind_default=30,
+            timeout=900,
+            expect_witnesses=["auth_ok", "auth_failed", "child_execs_checker", "fork_failed", "pipe_failed"]),
     ] + [
         Obl(name, "session.c",
             progs=[POP3D],
@@ -86,9 +99,9 @@ def popup_witnesses(p):
     if l1 >= 5:
         w += ["quit", "unknown_verb"]
     if l1 >= 9 and not l2:
-        w += ["apop", "auth_ok", "auth_failed", "child_execs_checker"]
+        w += ["apop"]
     if l1 >= 7 and l2 >= 7 and not l3:
-        w += ["auth_ok", "auth_failed", "pass_before_user", "child_execs_checker"]
+        w += ["user_pass", "pass_before_user"]
     if l1 == 9 and l2 == 9 and not l3:
         w += ["user3_pass3"]
     return sorted(set(w))
